@@ -12,16 +12,15 @@ def run(tier, seed):
         tc.model_check(rep, "MC_FimTopology seed=" + sd, tc.consts(d if quick or sd == "empty" else d + 1, sd, "full"))
     scripts = []
     for sd in (("svc",) if quick else ("two", "svc", "rich")):
-        scripts += tc.generate(rep, "Gen_FimTopology seed=" + sd, tc.consts(3 if quick else 4, sd, "full"), workers=8 if quick else 1)
-    scripts += tc.generate(rep, "Gen_FimTopology seed=twin", tc.consts(2 if quick else 3, "twin", "full"), workers=8 if quick else 1)
+        scripts += tc.generate(rep, "Gen_FimTopology seed=" + sd, tc.consts(3 if quick or sd == "rich" else 4, sd, "full"), workers=8)
+    scripts += tc.generate(rep, "Gen_FimTopology seed=twin", tc.consts(2 if quick else 3, "twin", "full"), workers=8)
     tc.run_and_validate(rep, scripts, "tlc-generated building/removal behaviours from seeded topologies")
     # substrate flavour: explicit ids, node-level services, explicit links, composite builders
     tc.model_check(rep, "MC_FimTopology substrate seed=sub", tc.consts(3 if quick else 4, "sub", "full", "substrate"))
-    sscripts = tc.generate(rep, "Gen_FimTopology substrate seed=sub", tc.consts(3 if quick else 4, "sub", "full", "substrate"),
-                           workers=8 if quick else 1)
+    sscripts = tc.generate(rep, "Gen_FimTopology substrate seed=sub", tc.consts(3 if quick else 4, "sub", "full", "substrate"), workers=8)
     tc.run_and_validate(rep, sscripts, "tlc-generated substrate-model behaviours", flavour="substrate")
     rng = random.Random(seed)
     gen = tc.RandomTopoOps(rng)
-    rs = [gen.script(40) for _ in range(100 if quick else 3000)]
+    rs = [gen.script(40) for _ in range(100 if quick else 1500)]
     tc.run_and_validate(rep, rs, "random walks over all building calls")
     return rep
